@@ -203,8 +203,10 @@ def run(tier, seed):
         qs = make_queries(rng, spec)
         seq = [rng.choice(qs) for _ in range(rng.randint(6, 10))]
         first = {}
+        called = []
         for name, q in seq:
-            if rng.random() < 0.25 and g.factors:
+            if rng.random() < 0.3 and g.factors:
+                if called: name, q = rng.choice(called)     # repeat an earlier query right after the update
                 # the caller updates a weight tensor in place (as an optimiser step does); every later
                 # query must see the new values (no stale caches), which the fresh-copy comparison checks
                 fac = rng.choice(list(g.factors.values()))
@@ -214,6 +216,7 @@ def run(tier, seed):
                 first = {}
                 hist["<inplace weight update>"] = hist.get("<inplace weight update>", 0) + 1
             hist[name.split("[")[0]] = hist.get(name.split("[")[0], 0) + 1
+            called.append((name, q))
             fresh = g.copy()
             if rg:
                 for f in fresh.factors.values(): f.weights.requires_grad_()
